@@ -55,7 +55,7 @@ def c06_1(cx):
     cx.flow(cb, cb.origin_op(sc.node()["args"][1], 0, {1: closure_origin(g, cb)}), [r"^\$2$"], [], "seeds the ids passed in", sc)
 
 
-@ob("C06.2", ["C06", "C07"], "an identity that ignores the ingredient, the identity-field hash or the disambiguator merges distinct structs (or splits equal ones)", kind="FLOW")
+@ob("C06.2", ["C06", "C07", "C01"], "an identity that ignores the ingredient, the identity-field hash or the disambiguator merges distinct structs (or splits equal ones)", kind="FLOW")
 def c06_2(cx):
     """new_struct: identity = (self.ingredient_index, hash(untracked_fields(fields)), disambiguate(identity_hash)); lookup by that identity; on a hit update() and keep/replace the id; on a miss allocate and store the id; Identity/IdentityHash equality is derived over all fields."""
     b = cx.fn(TS + r"new_struct$")
@@ -181,7 +181,7 @@ def c06_6(cx):
 # C07
 
 
-@ob("C07.1", ["C07", "C24"], "a reused slot that keeps its generation makes the new value indistinguishable from the old one: memos and edges keyed by the old id apply to the new value", kind="FLOW+ORDER")
+@ob("C07.1", ["C07", "C24", "C01"], "a reused slot that keeps its generation makes the new value indistinguishable from the old one: memos and edges keyed by the old id apply to the new value", kind="FLOW+ORDER")
 def c07_1(cx):
     """tracked allocate: an id popped from the free list is re-initialised only under id.next_generation() (None => the slot is leaked, loop continues); tracked update: when identity fields changed, memos are cleared and the id becomes next_generation(); generation == u32::MAX refuses the update."""
     a = cx.fn(TS + r"allocate$")
@@ -213,7 +213,7 @@ def c07_1(cx):
     cx.check(bool(n.calls(r"checked_add$")), "next_generation uses checked arithmetic (overflow => None)", body=n, key="checked-add")
 
 
-@ob("C07.3", ["C07", "C23"], "updating a struct that was already read in this revision mutates data behind live references; overwriting the write-lock marker hides a concurrent writer", kind="ONLYIF")
+@ob("C07.3", ["C07", "C23", "C01"], "updating a struct that was already read in this revision mutates data behind live references; overwriting the write-lock marker hides a concurrent writer", kind="ONLYIF")
 def c07_3(cx):
     """update: asserts updated_at.is_some(); returns early if updated_at == Some(current_revision); the write-lock swap(None) happens only otherwise and must return the value just loaded; after the update swap(Some(current_revision)) must have returned None. acquire_read_lock never overwrites None."""
     u = cx.fn(TS + r"update$")
